@@ -1,10 +1,11 @@
 \* C07 class (a), quick tier: all class strings of length <= 4, variant 1 (30 941 texts), exported with their certificates.
-\* checks/c07.py runs it in shards (Prefixes/Fixed rewritten per process); as it stands it is the whole enumeration.
+\* checks/c07.py runs it in shards (ShardLen/NShards/ShardNo rewritten per process); as it stands it is the whole enumeration.
 SPECIFICATION Spec
 CONSTANTS
   MaxLen = 4
-  Prefixes = {<<>>}
-  Fixed = {}
+  ShardLen = 0
+  NShards = 1
+  ShardNo = 0
   Variants = {1}
   Export = TRUE
 INVARIANTS Exported NulOnly CertStable BalanceLaw
